@@ -38,6 +38,12 @@ def register_hooks(converter: cattrs.Converter) -> cattrs.Converter:
     return _register_custom_property_hooks(converter)
 
 
+def _is_registration_options(object_: Any) -> bool:
+    """`documentSelector` is only declared by the `*RegistrationOptions` variant of a
+    provider, and `id` is optional there."""
+    return "id" in object_ or "documentSelector" in object_
+
+
 def _register_capabilities_hooks(converter: cattrs.Converter) -> cattrs.Converter:
     def _text_document_sync_hook(
         object_: Any, _: type
@@ -85,7 +91,7 @@ def _register_capabilities_hooks(converter: cattrs.Converter) -> cattrs.Converte
             return None
         if isinstance(object_, (bool, int, str, float)):
             return object_
-        if "id" in object_:
+        if _is_registration_options(object_):
             return converter.structure(
                 object_, lsp_types.DeclarationRegistrationOptions
             )
@@ -112,7 +118,7 @@ def _register_capabilities_hooks(converter: cattrs.Converter) -> cattrs.Converte
             return None
         if isinstance(object_, (bool, int, str, float)):
             return object_
-        if "id" in object_:
+        if _is_registration_options(object_):
             return converter.structure(
                 object_, lsp_types.TypeDefinitionRegistrationOptions
             )
@@ -130,7 +136,7 @@ def _register_capabilities_hooks(converter: cattrs.Converter) -> cattrs.Converte
             return None
         if isinstance(object_, (bool, int, str, float)):
             return object_
-        if "id" in object_:
+        if _is_registration_options(object_):
             return converter.structure(
                 object_, lsp_types.ImplementationRegistrationOptions
             )
@@ -189,7 +195,7 @@ def _register_capabilities_hooks(converter: cattrs.Converter) -> cattrs.Converte
             return None
         if isinstance(object_, (bool, int, str, float)):
             return object_
-        if "id" in object_:
+        if _is_registration_options(object_):
             return converter.structure(
                 object_, lsp_types.DocumentColorRegistrationOptions
             )
@@ -243,7 +249,7 @@ def _register_capabilities_hooks(converter: cattrs.Converter) -> cattrs.Converte
             return None
         if isinstance(object_, (bool, int, str, float)):
             return object_
-        if "id" in object_:
+        if _is_registration_options(object_):
             return converter.structure(
                 object_, lsp_types.FoldingRangeRegistrationOptions
             )
@@ -261,7 +267,7 @@ def _register_capabilities_hooks(converter: cattrs.Converter) -> cattrs.Converte
             return None
         if isinstance(object_, (bool, int, str, float)):
             return object_
-        if "id" in object_:
+        if _is_registration_options(object_):
             return converter.structure(
                 object_, lsp_types.SelectionRangeRegistrationOptions
             )
@@ -279,7 +285,7 @@ def _register_capabilities_hooks(converter: cattrs.Converter) -> cattrs.Converte
             return None
         if isinstance(object_, (bool, int, str, float)):
             return object_
-        if "id" in object_:
+        if _is_registration_options(object_):
             return converter.structure(
                 object_, lsp_types.CallHierarchyRegistrationOptions
             )
@@ -297,7 +303,7 @@ def _register_capabilities_hooks(converter: cattrs.Converter) -> cattrs.Converte
             return None
         if isinstance(object_, (bool, int, str, float)):
             return object_
-        if "id" in object_:
+        if _is_registration_options(object_):
             return converter.structure(
                 object_, lsp_types.LinkedEditingRangeRegistrationOptions
             )
@@ -313,7 +319,7 @@ def _register_capabilities_hooks(converter: cattrs.Converter) -> cattrs.Converte
     ]:
         if object_ is None:
             return None
-        if "id" in object_:
+        if _is_registration_options(object_):
             return converter.structure(
                 object_, lsp_types.SemanticTokensRegistrationOptions
             )
@@ -331,7 +337,7 @@ def _register_capabilities_hooks(converter: cattrs.Converter) -> cattrs.Converte
             return None
         if isinstance(object_, (bool, int, str, float)):
             return object_
-        if "id" in object_:
+        if _is_registration_options(object_):
             return converter.structure(object_, lsp_types.MonikerRegistrationOptions)
         else:
             return converter.structure(object_, lsp_types.MonikerOptions)
@@ -347,7 +353,7 @@ def _register_capabilities_hooks(converter: cattrs.Converter) -> cattrs.Converte
             return None
         if isinstance(object_, (bool, int, str, float)):
             return object_
-        if "id" in object_:
+        if _is_registration_options(object_):
             return converter.structure(
                 object_, lsp_types.TypeHierarchyRegistrationOptions
             )
@@ -365,7 +371,7 @@ def _register_capabilities_hooks(converter: cattrs.Converter) -> cattrs.Converte
             return None
         if isinstance(object_, (bool, int, str, float)):
             return object_
-        if "id" in object_:
+        if _is_registration_options(object_):
             return converter.structure(
                 object_, lsp_types.InlineValueRegistrationOptions
             )
@@ -383,7 +389,7 @@ def _register_capabilities_hooks(converter: cattrs.Converter) -> cattrs.Converte
             return None
         if isinstance(object_, (bool, int, str, float)):
             return object_
-        if "id" in object_:
+        if _is_registration_options(object_):
             return converter.structure(object_, lsp_types.InlayHintRegistrationOptions)
         else:
             return converter.structure(object_, lsp_types.InlayHintOptions)
@@ -407,7 +413,7 @@ def _register_capabilities_hooks(converter: cattrs.Converter) -> cattrs.Converte
     ]:
         if object_ is None:
             return None
-        if "id" in object_:
+        if _is_registration_options(object_):
             return converter.structure(object_, lsp_types.DiagnosticRegistrationOptions)
         else:
             return converter.structure(object_, lsp_types.DiagnosticOptions)
